@@ -52,7 +52,7 @@ def explore_choices(run, max_dev, on_exec, max_exec=None, fixed=None):
         ch = Chooser(prefix, expect)
         out = run(ch)
         st["executions"] += 1
-        st["choice_points"] += len(ch.trace) - max(len(prefix) - 1, 0) if prefix else len(ch.trace)
+        st["choice_points"] += len(ch.trace)
         on_exec(ch, out)
         if max_exec is not None and st["executions"] >= max_exec:
             st["capped"] = True
@@ -70,7 +70,7 @@ def explore_choices(run, max_dev, on_exec, max_exec=None, fixed=None):
 
 
 def bfs(make, apply, events_of, canon, max_depth=None, max_states=None, on_transition=None,
-        terminal=None):
+        terminal=None, root=(), on_state=None, static_events=None):
     """Explicit-state BFS where a state is the event history reaching it.
 
     make() -> fresh sim; apply(sim, ev) -> verdicts (list) of that step;
@@ -85,9 +85,11 @@ def bfs(make, apply, events_of, canon, max_depth=None, max_states=None, on_trans
             v = apply(sim, ev)
         return sim, v
 
-    sim0 = make()
+    sim0, _ = build(list(root))
     seen = {canon(sim0)}
-    frontier = [[]]
+    frontier = [list(root)]
+    if on_state is not None:
+        on_state(list(root))
     res = {"states": 1, "transitions": 0, "depth": 0, "closed": False, "capped": False, "verdicts": []}
     depth = 0
     while frontier:
@@ -95,8 +97,11 @@ def bfs(make, apply, events_of, canon, max_depth=None, max_states=None, on_trans
             break
         nxt = []
         for hist in frontier:
-            sim, _ = build(hist)
-            evs = list(events_of(sim))
+            if static_events is not None:
+                evs = static_events
+            else:
+                sim, _ = build(hist)
+                evs = list(events_of(sim))
             for ev in evs:
                 sim2, _ = build(hist)
                 verdicts = apply(sim2, ev)
@@ -112,6 +117,8 @@ def bfs(make, apply, events_of, canon, max_depth=None, max_states=None, on_trans
                 if k not in seen:
                     seen.add(k)
                     nxt.append(h2)
+                    if on_state is not None:
+                        on_state(h2)
                     if max_states is not None and len(seen) >= max_states:
                         res["capped"] = True
                         break
